@@ -5,7 +5,7 @@
    in-memory index) dropped, then ContinuityStore::new;  `run_ops fixed … base more` = ANY further operations.
    `env_runb` = the environment's part (fresh UUIDs: a thread id chosen for creation is not in the log, a
    session whose counter is not in memory is new).  `fixed` = /repo with the two repairs (bd2ee56, 0b0d2b0). *)
-From RipV Require Import Base.Prelude Model.Crash Proofs.CrashProofs Proofs.CrashCacheProofs.
+From RipV Require Import Base.Prelude Model.Crash Proofs.CrashProofs Proofs.CrashCacheProofs Gen.CrashEffects Proofs.CrashGenProofs.
 
 (* whole store replays, every stream 0,1,2,.., whole lines only *)
 Theorem c05_recover_valid : forall (hist : list op) (k : nat) (base : N) (more : list op),
@@ -140,3 +140,27 @@ Example c05_caches_after_crash_nonvacuous :
   /\ try_replay (run_ops fixed (crash fixed 43 stale_hist) 2 []) 0 = Some [mkf 0 0 0 300 None].
 Proof. exact stale_is_prefix. Qed.
 Print Assumptions c05_caches_after_crash_nonvacuous.
+
+(* T1 (Gen/CrashEffects.v is regenerated from /repo on every run): the order of file-system effects, crash points and
+   counter updates read from EventLog::append, append_best_effort, rebuild_best_effort, the 11 locked appends,
+   create_continuity(_locked), branch, handoff, save_index, write_blob_atomic and load_next_seq_for equals the
+   skeleton of the model's compiled programs, the artifact is written before the checkpoint frame, and the code
+   version read from the source (one write per log line, the log decides the next seq, flush after every frame) is
+   the one the theorems above are about *)
+Theorem c05_effect_order_tied : gen_crash_effects_ok_b = true /\ gen_ver = fixed.
+Proof. exact effects_tied. Qed.
+Print Assumptions c05_effect_order_tied.
+
+(* the central statements over the GENERATED code version, for every version passing the generated check *)
+Theorem c05_recover_valid_generated : forall (hist : list op) (k : nat) (base : N) (more : list op),
+  env_runb gen_ver init 0 hist = true -> nlen hist <= base ->
+  env_runb gen_ver (crash gen_ver k hist) base more = true ->
+  exists fs, replay_validated (run_ops gen_ver (crash gen_ver k hist) base more) = Some fs
+             /\ Numbered fs
+             /\ truth (run_ops gen_ver (crash gen_ver k hist) base more) = enc fs
+             /\ (forall fid, In fid (acks (crash gen_ver k hist)) \/ In fid (acks (run_ops gen_ver (crash gen_ver k hist) base more)) ->
+                             cfid fid fs = 1)
+             /\ (forall c evs, try_replay (run_ops gen_ver (crash gen_ver k hist) base more) c = Some evs ->
+                               exists rest, stream (2 * c) fs = evs ++ rest).
+Proof. exact recover_valid_generated. Qed.
+Print Assumptions c05_recover_valid_generated.
